@@ -2,7 +2,7 @@
    Only statements; proofs in C12/Proofs.v.  dtype (float32) and finiteness are properties of TensorFlow values that
    exact rationals cannot express: they are checked on the implementation's outputs by harness/c12.py only. *)
 From Xpl Require Import C12.Model C12.Proofs.
-From Xpl Require C01.Model C01.Spec C04.Model C04.Spec C06.Model C06.Spec C06.Proofs C09.Model C09.Proofs.
+From Xpl Require C01.Model C01.Spec C01.Proofs C04.Model C04.Spec C06.Model C06.Spec C06.Proofs C09.Model C09.Proofs.
 Close Scope Qc_scope. Open Scope nat_scope.
 
 (* a dataset of (input, target) pairs batched by ANY b >= 1 (remainder batch included), the unbatched dataset and the
@@ -52,6 +52,17 @@ Theorem C12_gradient_input_shape :
     forall e, In e (C01.Model.gradient_input grad k r bs xs ts) -> length e = out_size k r.
 Proof. exact gradient_input_shape. Qed.
 Print Assumptions C12_gradient_input_shape.
+
+Theorem C12_gradient_statistics_shape :
+  forall (grad : list Qc -> list Qc -> list Qc) k r st bs nb xs ts noises,
+    C01.Spec.shape_preserving grad -> C01.Spec.kind_ok k -> C06.Proofs.bs_ok bs -> 1 <= nb ->
+    (st = C01.Model.SVar -> 2 <= nb) -> C01.Spec.noises_ok nb (C01.Proofs.rows xs ts noises) ->
+    length xs = length ts -> length xs = length noises ->
+    (forall x, In x xs -> length x = C01.Model.kind_size k) ->
+    length (C01.Model.gradstat grad k r st bs nb xs ts noises) = length xs /\
+    forall e, In e (C01.Model.gradstat grad k r st bs nb xs ts noises) -> length e = out_size k r.
+Proof. exact gradstat_shape. Qed.
+Print Assumptions C12_gradient_statistics_shape.
 
 Theorem C12_occlusion_shape :
   forall (score : list Qc -> list Qc -> Qc) g bs v xs ts,
